@@ -7,12 +7,15 @@
    binary64 (inputs 0 or of magnitude in [2^-160, 2^160]) and binary32 (inputs 0 or of magnitude in [2^-20, 2^20]): under these
    ranges every intermediate result is normal or exactly zero.  The accumulation over a source list is proved for every arithmetic
    satisfying the standard model (remote_*_error) AND on the actual binary64 computation of GenericFullRemote for one target
-   (C20_sf_remote_error: up to 2^26 sources; running sums that fall into the subnormal range are exact, none overflows); the mutual
-   and in-leaf routines reduce to [remote_one] by the exact laws of Properties_C20.
+   (C20_sf_remote_error: up to 2^26 sources; running sums that fall into the subnormal range are exact, none overflows; binary32: C20_sf32_remote_error,
+   inputs in [2^-18, 2^18], up to 2^11 sources).  The mutual and in-leaf routines: their structure is characterised for EVERY arithmetic
+   (C20_full_mutual_targets: the targets are computed exactly as by the one-sided routine; C20_full_mutual_sources /
+   C20_inner_structure: every other particle is a left fold of in-place updates), and the same (n + 7) u / (n + 17) u bounds are proved
+   for them under the standard model (C20_mutual_error, C20_inner_error).
    Axioms: classical reals of Coq's standard library (+ Classical_Prop.classic through Flocq). *)
 From Coq Require Import List Reals.
 From Flocq Require Import Core IEEE754.BinarySingleNaN.
-From Tbfmm Require Import Num.P2PDefs Num.P2PReal Num.P2PSF Num.P2PError Num.P2PError32 Num.P2PErrorSum.
+From Tbfmm Require Import Num.P2PDefs Num.P2PReal Num.P2PSF Num.P2PError Num.P2PError32 Num.P2PErrorSum Num.P2PErrorSum32 Num.P2PErrorMutual.
 Local Open Scope R_scope.
 
 (* one pair: potential kernel within 5 u, force components within 16 u (relative) *)
@@ -154,3 +157,65 @@ Print Assumptions C20_sf_remote_error.
 Example C20_remote_inputs_satisfiable :
   Forall (fun s => b64_inputs_ok s ex_t) (ex_s1 :: ex_s2 :: nil) /\ (Z.of_nat (length (ex_s1 :: ex_s2 :: nil)) <= 2 ^ 26)%Z.
 Proof. exact (conj ex_inputs ex_len). Qed.
+
+(* ---- binary32 accumulation on the actual computation (inputs 0 or of magnitude in [2^-18, 2^18], at most 2^11 sources) ---- *)
+Theorem C20_sf32_remote_error : forall (srcs : list (part (binary_float 24 128))) (t : part (binary_float 24 128)),
+  Forall (fun s => b32_inputs_ok18 s t) srcs -> (Z.of_nat (length srcs) <= 2 ^ 11)%Z ->
+  let tR := partR32_of t in let sR := map partR32_of srcs in let n := INR (length srcs) in
+  let r := remote_one SpecFloat.spec_float (sf_ops 24 128) (map sf_part32 srcs) (sf_part32 t) (rhs0 _ (sf_ops 24 128)) in
+  (is_finite_SF (f_x _ r) = true /\ is_finite_SF (f_y _ r) = true /\ is_finite_SF (f_z _ r) = true /\
+   is_finite_SF (f_p _ r) = true) /\
+  Rabs (SF2R radix2 (f_p _ r) - Rsum (map (fun s => p_v _ s / rdist s tR) sR))
+    <= ((n + 7) * bpow radix2 (-24)) * Rsum (map (fun s => Rabs (p_v _ s) / rdist s tR) sR) /\
+  Rabs (SF2R radix2 (f_x _ r) - Rsum (map (fun s => f_x _ (contrib s tR)) sR))
+    <= ((n + 17) * bpow radix2 (-24)) * Rsum (map (fun s => Rabs (f_x _ (contrib s tR))) sR) /\
+  Rabs (SF2R radix2 (f_y _ r) - Rsum (map (fun s => f_y _ (contrib s tR)) sR))
+    <= ((n + 17) * bpow radix2 (-24)) * Rsum (map (fun s => Rabs (f_y _ (contrib s tR))) sR) /\
+  Rabs (SF2R radix2 (f_z _ r) - Rsum (map (fun s => f_z _ (contrib s tR)) sR))
+    <= ((n + 17) * bpow radix2 (-24)) * Rsum (map (fun s => Rabs (f_z _ (contrib s tR))) sR).
+Proof. exact sf32_remote_error. Qed.
+Print Assumptions C20_sf32_remote_error.
+
+(* ---- the mutual and in-leaf routines: structure in EVERY arithmetic (so also in the IEEE instances executed against the C++) ---- *)
+Theorem C20_full_mutual_targets : forall (T : Type) (ar : ops T) srcs tgts,
+  snd (full_mutual T ar srcs tgts) = full_remote T ar (map fst srcs) tgts.
+Proof. exact full_mutual_targets. Qed.
+Print Assumptions C20_full_mutual_targets.
+
+Theorem C20_full_mutual_sources : forall (T : Type) (ar : ops T) srcs tgts,
+  fst (full_mutual T ar srcs tgts) =
+  map (fun sr => (fst sr, fold_left (fun a t => backT T ar t (fst sr) a) (map fst tgts) (snd sr))) srcs.
+Proof. exact full_mutual_sources. Qed.
+Print Assumptions C20_full_mutual_sources.
+
+Theorem C20_inner_structure : forall (T : Type) (ar : ops T) (dd : part T * rhs T) (d : rhs T) ps i, (i < length ps)%nat ->
+  nth i (inner T ar ps) d =
+  fold_left (stepT T ar (fst (nth i ps dd))) (map fst (skipn (S i) ps))
+    (fold_left (fun a tk => backT T ar tk (fst (nth i ps dd)) a) (map fst (firstn i ps)) (snd (nth i ps dd))).
+Proof. exact inner_structure. Qed.
+Print Assumptions C20_inner_structure.
+
+(* ---- and their rounding bounds under the standard model: every source and every target of the mutual routine, every particle of the
+   in-leaf routine, zero initial accumulators; acc_bound u L p r = potential within (|L| + 7) u and forces within (|L| + 17) u of the
+   exact sums over the contributors L, relative to the sums of absolute contributions ---- *)
+Theorem C20_mutual_error : forall u, 0 <= u <= 1 / 1024 -> forall ar, std_model u ar ->
+  forall (srcs tgts : list (partR * rhsR)),
+  Forall (fun sr => snd sr = rhs0 R ar) srcs -> Forall (fun tr => snd tr = rhs0 R ar) tgts ->
+  Forall (fun sr => Forall (fun tr => apart (fst sr) (fst tr)) tgts) srcs ->
+  (INR (length tgts) + 16) * (INR (length tgts) + 17) * u <= 1 ->
+  (INR (length srcs) + 16) * (INR (length srcs) + 17) * u <= 1 ->
+  Forall (fun sr' => acc_bound u (map fst tgts) (fst sr') (snd sr')) (fst (full_mutual R ar srcs tgts)) /\
+  Forall2 (fun tr r' => acc_bound u (map fst srcs) (fst tr) r') tgts (snd (full_mutual R ar srcs tgts)).
+Proof. exact mutual_error. Qed.
+Print Assumptions C20_mutual_error.
+
+Theorem C20_inner_error : forall u, 0 <= u <= 1 / 1024 -> forall ar, std_model u ar ->
+  forall (ps : list (partR * rhsR)),
+  ForallOrdPairs (fun a b => apart (fst a) (fst b)) ps ->
+  Forall (fun pr => snd pr = rhs0 R ar) ps ->
+  let n := INR (length ps) - 1 in
+  (n + 16) * (n + 17) * u <= 1 ->
+  forall i, (i < length ps)%nat ->
+    acc_bound u (map fst (firstn i ps ++ skipn (S i) ps)) (fst (nth i ps dflt)) (nth i (inner R ar ps) (rhs0 R ar)).
+Proof. exact inner_error. Qed.
+Print Assumptions C20_inner_error.
